@@ -28,14 +28,6 @@ def SignProfile (c : Cert) : Prop :=
 def IssuedBy (r c : Cert) : Prop :=
   c.signerKey = r.subjectKey ∧ c.issuerCn = r.cn ∧ c.issuerSerial = r.subjSerial
 
-/-- Common names reserved for roots: `R` lists the names used as root common names; no signing key
-    (first or rotated) is given one of them. -/
-def Roles (R : List String) : List Cmd → Prop
-  | [] => True
-  | .bootstrap _ a :: h => a.rootCn ∈ R ∧ a.signCn ∉ R ∧ Roles R h
-  | .rotate _ a :: h => a.cn ∉ R ∧ Roles R h
-  | .wipeout _ _ _ :: h => Roles R h
-
 /-- Nothing recorded, no key alive, nothing destroyed in this key epoch. -/
 def Clean (s : State) : Prop :=
   s.km.live = [] ∧ s.km.destroyed = [] ∧ s.ca = CA.empty
